@@ -585,4 +585,266 @@ theorem ArriveQ.step (s s' : Sys) (m : Msg) (rest0 subs : List Msg) (inv : Arriv
           rw [hprev, maturedSum_congr _ _ _ _ hhist hbid, hub, htime, hbank']
           omega
 
+
+/-! ### sums over id lists -/
+
+theorem sum_filter_or (l : List Nat) (p q : Nat → Bool) (f : Nat → Nat)
+    (hd : ∀ i ∈ l, ¬ (p i = true ∧ q i = true)) :
+    ((l.filter (fun i => p i || q i)).map f).sum = ((l.filter p).map f).sum + ((l.filter q).map f).sum := by
+  induction l with
+  | nil => rfl
+  | cons i l ih =>
+    have r := ih (fun j hj => hd j (List.mem_cons_of_mem _ hj))
+    have hi := hd i (List.mem_cons_self ..)
+    simp only [List.filter_cons]
+    cases hp : p i <;> cases hq : q i <;> simp only [hp, hq, Bool.or_self, Bool.or_true, Bool.or_false,
+      Bool.true_or, Bool.false_eq_true, if_true, if_false, List.map_cons, List.sum_cons] <;> try omega
+    exact absurd ⟨hp, hq⟩ hi
+
+theorem filter_eq_singleton (l : List Nat) (a : Nat) (hn : l.Nodup) (ha : a ∈ l) :
+    l.filter (fun i => i == a) = [a] := by
+  induction l with
+  | nil => cases ha
+  | cons b l ih =>
+    have hn' := List.nodup_cons.mp hn
+    simp only [List.filter_cons]
+    by_cases hb : b = a
+    · subst hb
+      simp only [beq_self_eq_true, if_true]
+      have : l.filter (fun i => i == b) = [] := by
+        apply List.filter_eq_nil_iff.mpr
+        intro i hi
+        simp only [beq_iff_eq]
+        intro e; subst e; exact hn'.1 hi
+      rw [this]
+    · have hne : (b == a) = false := by simpa using hb
+      simp only [hne, Bool.false_eq_true, if_false]
+      have ha' : a ∈ l := by
+        rcases List.mem_cons.mp ha with h | h
+        · exact absurd h.symm hb
+        · exact h
+      exact ih hn'.2 ha'
+
+/-- a duplicate-free list contained in another one has the smaller sum -/
+theorem sum_le_of_nodup_subset (f : Nat → Nat) : ∀ (l2 l1 : List Nat), l1.Nodup → (∀ i ∈ l1, i ∈ l2) →
+    (l1.map f).sum ≤ (l2.map f).sum := by
+  intro l2
+  induction l2 with
+  | nil =>
+    intro l1 _ hs
+    cases l1 with
+    | nil => exact Nat.le_refl _
+    | cons a l => exact absurd (hs a (List.mem_cons_self ..)) (by simp)
+  | cons a l2 ih =>
+    intro l1 hn hs
+    simp only [List.map_cons, List.sum_cons]
+    by_cases ha : a ∈ l1
+    · -- split l1 into a and the rest
+      have hsplit := sum_filter_or l1 (fun i => i == a) (fun i => !(i == a)) f (by
+        intro i _ h; cases hh : (i == a) <;> simp [hh] at h)
+      have hall : l1.filter (fun i => (i == a) || !(i == a)) = l1 := by
+        apply List.filter_eq_self.mpr
+        intro i _; cases (i == a) <;> rfl
+      rw [hall, filter_eq_singleton l1 a hn ha] at hsplit
+      have r := ih (l1.filter (fun i => !(i == a))) (List.Pairwise.sublist List.filter_sublist hn)
+        (by
+          intro i hi
+          have hm := List.mem_filter.mp hi
+          have hne : i ≠ a := by simpa using hm.2
+          rcases List.mem_cons.mp (hs i hm.1) with h | h
+          · exact absurd h hne
+          · exact h)
+      simp only [List.map_cons, List.map_nil, List.sum_cons, List.sum_nil] at hsplit
+      omega
+    · have r := ih l1 hn (by
+        intro i hi
+        rcases List.mem_cons.mp (hs i hi) with h | h
+        · subst h; exact absurd hi ha
+        · exact h)
+      omega
+
+theorem map_nodup_of_inj (l : List Nat) (g : Nat → Nat) (hn : l.Nodup)
+    (hinj : ∀ i ∈ l, ∀ j ∈ l, g i = g j → i = j) : (l.map g).Nodup := by
+  induction l with
+  | nil => simp
+  | cons a l ih =>
+    have hn' := List.nodup_cons.mp hn
+    simp only [List.map_cons]
+    apply List.nodup_cons.mpr
+    refine ⟨?_, ih hn'.2 (fun i hi j hj => hinj i (List.mem_cons_of_mem _ hi) j (List.mem_cons_of_mem _ hj))⟩
+    intro hm
+    obtain ⟨b, hb, he⟩ := List.mem_map.mp hm
+    have := hinj a (List.mem_cons_self ..) b (List.mem_cons_of_mem _ hb) he.symm
+    subst this
+    exact hn'.1 hb
+
+/-! ### time passes -/
+
+/-- when block time moves from `t` to `t'`, what newly counts as matured is paid by the unbonding
+    queue entries that complete in between -/
+theorem maturedSum_advance (h : HubSt) (ub t t' : Nat) (q : List (Addr × Nat × Nat)) (htt : t ≤ t')
+    (hi : HistInv h)
+    (cover : ∀ i x, h.hist i = some x → x.released = false → t < x.time + ub → batchU x ≤ qAt q (x.time + ub)) :
+    maturedSum h ub t' ≤ maturedSum h ub t + ((q.filter (fun e => e.2.2 ≤ t')).map (·.2.1)).sum := by
+  -- newly matured ids
+  let isNew : Nat → Bool := fun i => match h.hist i with
+    | some x => !x.released && decide (t < x.time + ub) && decide (x.time + ub ≤ t')
+    | none => false
+  have hsplit : maturedSum h ub t' =
+      maturedSum h ub t + (((List.range h.batchId).filter isNew).map (fun i => batchU (h.histOr i))).sum := by
+    unfold maturedSum maturedIds
+    rw [← sum_filter_or]
+    · apply sum_filter_congr
+      · intro i _
+        unfold isMatured
+        cases hx : h.hist i with
+        | none => simp [isNew, hx]
+        | some x =>
+          simp only [isNew, hx]
+          by_cases h1 : x.time + ub ≤ t <;> by_cases h2 : x.time + ub ≤ t' <;>
+            cases x.released <;> simp [h1, h2] <;> omega
+      · intro _ _ _; rfl
+    · intro i _ hc
+      unfold isMatured at hc
+      cases hx : h.hist i with
+      | none => simp [isNew, hx] at hc
+      | some x =>
+        simp only [isNew, hx] at hc
+        cases hr : x.released <;> simp [hr] at hc
+        omega
+  rw [hsplit]
+  apply Nat.add_le_add_left
+  -- each newly matured batch is covered by the queue entries completing exactly at its maturity
+  have hnd : ((List.range h.batchId).filter isNew).Nodup := List.Pairwise.sublist List.filter_sublist List.nodup_range
+  have facts : ∀ i ∈ (List.range h.batchId).filter isNew, ∃ x, h.hist i = some x ∧ x.released = false ∧
+      t < x.time + ub ∧ x.time + ub ≤ t' := by
+    intro i hi'
+    have hm := (List.mem_filter.mp hi').2
+    cases hx : h.hist i with
+    | none => simp [isNew, hx] at hm
+    | some x =>
+      simp only [isNew, hx] at hm
+      cases hr : x.released <;> simp [hr] at hm
+      exact ⟨x, rfl, hr, hm.1, hm.2⟩
+  have h1 : (((List.range h.batchId).filter isNew).map (fun i => batchU (h.histOr i))).sum ≤
+      ((((List.range h.batchId).filter isNew).map (fun i => (h.histOr i).time + ub)).map (qAt q)).sum := by
+    rw [List.map_map]
+    generalize hl : (List.range h.batchId).filter isNew = l at facts
+    clear hl hnd
+    induction l with
+    | nil => exact Nat.le_refl _
+    | cons i l ih =>
+      simp only [List.map_cons, List.sum_cons, Function.comp]
+      obtain ⟨x, hx, hr, hlt, _⟩ := facts i (List.mem_cons_self ..)
+      have e : h.histOr i = x := by simp [histOr, hx]
+      have c := cover i x hx hr hlt
+      have r := ih (fun j hj => facts j (List.mem_cons_of_mem _ hj))
+      try simp only [Function.comp] at r
+      rw [e]; omega
+  refine Nat.le_trans h1 ?_
+  apply qAt_sum_le
+  · apply map_nodup_of_inj _ _ hnd
+    intro i hi' j hj' he
+    obtain ⟨x, hx, _, _, _⟩ := facts i hi'
+    obtain ⟨y, hy, _, _, _⟩ := facts j hj'
+    have ex : h.histOr i = x := by simp [histOr, hx]
+    have ey : h.histOr j = y := by simp [histOr, hy]
+    rw [ex, ey] at he
+    by_cases hlt : i < j
+    · have := hi.mono i j x y hx hy hlt; omega
+    · by_cases hgt : j < i
+      · have := hi.mono j i y x hy hx hgt; omega
+      · omega
+  · intro c hc
+    obtain ⟨i, hi', he⟩ := List.mem_map.mp hc
+    obtain ⟨x, hx, _, _, hle⟩ := facts i hi'
+    have ex : h.histOr i = x := by simp [histOr, hx]
+    rw [ex] at he; omega
+
+/-- environment events other than slashing of the unbonding stake (and the test-only legacy
+    seeding) keep the invariant between transactions -/
+theorem ArriveQ.env (s : Sys) (e : EnvOp) (inv : ArriveQ s []) (hi : HistInv s.hub)
+    (hns : ∀ v n d, e ≠ .slashUnbonding v n d) (hnl : ∀ u b a, e ≠ .seedLegacy u b a) :
+    ArriveQ (s.env e) [] := by
+  obtain ⟨A, rest, hq, _, _, hle⟩ := inv.split
+  have hA : A = [] := by
+    cases A with
+    | nil => rfl
+    | cons p t => simp only [List.cons_append] at hq; cases hq
+  subst hA
+  have hB : s.hub.prevHubBalance + maturedSum s.hub s.chain.unbondingTime s.chain.time ≤ s.chain.bank hubA 0 := by
+    simpa [hubOutAll] using hle
+  have mk : ∀ (s' : Sys), s'.hub = s.hub → s'.chain.unbondingTime = s.chain.unbondingTime →
+      s'.chain.time = s.chain.time → s'.chain.unbondingQ = s.chain.unbondingQ →
+      s.chain.bank hubA 0 ≤ s'.chain.bank hubA 0 → ArriveQ s' [] := by
+    intro s' hh hu ht hQ hb
+    refine ⟨by rw [hu]; exact inv.ubpos, by rw [hQ, ht]; exact inv.fresh, by rw [hh, ht]; exact inv.lastUnb, ?_, ?_⟩
+    · intro i x hx hr hlt
+      rw [hh] at hx; rw [hu, ht] at hlt ⊢; rw [hQ]
+      exact inv.cover i x hx hr hlt
+    · refine ⟨[], [], rfl, (fun _ h => by cases h), (fun _ h => by cases h), ?_⟩
+      rw [hh, hu, ht]; simp only [hubOutAll, List.map_nil, List.sum_nil, Nat.add_zero]; omega
+  cases e with
+  | slashUnbonding v n d => exact absurd rfl (hns v n d)
+  | seedLegacy u b a => exact absurd rfl (hnl u b a)
+  | slash v n d =>
+    simp only [Sys.env]
+    split
+    · exact mk s rfl rfl rfl rfl (Nat.le_refl _)
+    · exact mk _ rfl rfl rfl rfl (Nat.le_refl _)
+  | accrue v d amt => exact mk _ rfl rfl rfl rfl (Nat.le_refl _)
+  | blockRedelegation v on => exact mk _ rfl rfl rfl rfl (Nat.le_refl _)
+  | oracle ok p => exact mk _ rfl rfl rfl rfl (Nat.le_refl _)
+  | swap ok p => exact mk _ rfl rfl rfl rfl (Nat.le_refl _)
+  | donate a d amt =>
+    apply mk (s.env (.donate a d amt)) rfl rfl rfl rfl
+    show s.chain.bank hubA 0 ≤ (s.setBank a d (s.chain.bank a d + amt)).chain.bank hubA 0
+    simp only [Sys.setBank, upd]
+    by_cases h1 : hubA = a
+    · subst h1
+      by_cases h2 : (0 : Denom) = d
+      · subst h2; simp
+      · simp [h2]
+    · simp [h1]
+  | advance dt =>
+    have hcov : ∀ i x, s.hub.hist i = some x → x.released = false →
+        s.chain.time < x.time + s.chain.unbondingTime →
+        batchU x ≤ qAt s.chain.unbondingQ (x.time + s.chain.unbondingTime) := by
+      intro i x hx hr hlt
+      have := inv.cover i x hx hr hlt
+      simp only [undelegatedBy] at this
+      split at this <;> omega
+    have hadv := maturedSum_advance s.hub s.chain.unbondingTime s.chain.time (s.chain.time + dt)
+      s.chain.unbondingQ (by omega) hi hcov
+    refine ⟨inv.ubpos, ?_, ?_, ?_, ?_⟩
+    · intro e he
+      simp only [Sys.env] at he ⊢
+      have := (List.mem_filter.mp he).2
+      simp only [Bool.not_eq_eq_eq_not, Bool.not_true, decide_eq_false_iff_not] at this
+      omega
+    · show s.hub.lastUnbondedTime ≤ s.chain.time + dt
+      have := inv.lastUnb; omega
+    · intro i x hx hr hlt
+      have hx' : s.hub.hist i = some x := hx
+      have hlt' : s.chain.time + dt < x.time + s.chain.unbondingTime := hlt
+      have c := hcov i x hx' hr (by omega)
+      show batchU x ≤ qAt (s.chain.unbondingQ.filter (fun e => !(decide (e.2.2 ≤ s.chain.time + dt))))
+        (x.time + s.chain.unbondingTime) + _
+      have same : qAt (s.chain.unbondingQ.filter (fun e => !(decide (e.2.2 ≤ s.chain.time + dt))))
+          (x.time + s.chain.unbondingTime) = qAt s.chain.unbondingQ (x.time + s.chain.unbondingTime) := by
+        unfold qAt
+        rw [List.filter_filter]
+        congr 2
+        apply List.filter_congr
+        intro e _
+        by_cases he : e.2.2 = x.time + s.chain.unbondingTime
+        · simp [he]; omega
+        · simp [he]
+      rw [same]; omega
+    · refine ⟨[], [], rfl, (fun _ h => by cases h), (fun _ h => by cases h), ?_⟩
+      show s.hub.prevHubBalance + hubOutAll [] + maturedSum s.hub s.chain.unbondingTime (s.chain.time + dt) ≤
+        (s.setBank hubA 0 (s.chain.bank hubA 0 + ((s.chain.unbondingQ.filter (fun e => e.2.2 ≤ s.chain.time + dt)).map (fun e => e.2.1)).sum)).chain.bank hubA 0
+      simp only [Sys.setBank, upd_same, hubOutAll, List.map_nil, List.sum_nil, Nat.add_zero]
+      omega
+
 end Krp
